@@ -130,6 +130,7 @@ def real_tokens(repo, block):
     t, fired = rulesmod.apply_rules(raw, extra_rules(block["opts"]))
     if fired.get("RX-miss"):
         raise LostAnchor("item %r: a per-item replacement rule no longer matches" % block["key"])
+    line = src.count("\n", 0, it.toks[it.lo].start) + 1
     frag = block["opts"].get("fragment")
     if frag:
         # a contiguous run of statements of the body: from the first occurrence of the token sequence `start` to the
@@ -143,6 +144,16 @@ def real_tokens(repo, block):
                 break
         if a is None:
             raise LostAnchor("item %r: fragment start %r not found" % (block["key"], frag["start"]))
+        if "end_before" in frag:
+            eb = frag["end_before"].split()
+            e = None
+            for i in range(a, len(t) - len(eb) + 1):
+                if t[i:i + len(eb)] == eb:
+                    e = i
+                    break
+            if e is None:
+                raise LostAnchor("item %r: fragment end %r not found" % (block["key"], frag["end_before"]))
+            return t[a:e], fired, it, line
         j = a
         while j < len(t) and t[j] != frag["end_after"]:
             j += 1
@@ -160,7 +171,6 @@ def real_tokens(repo, block):
                 break
             j += 1
         t = t[a:j + 1]
-    line = src.count("\n", 0, it.toks[it.lo].start) + 1
     return t, fired, it, line
 
 
@@ -255,7 +265,14 @@ def transplant(ovl_text, new_tokens, kind):
     placed = {}      # new index -> [annotation text]
     for idx, text, is_line in anns:
         j = None
-        if idx in fwd:
+        st = text.strip()
+        # annotations that belong to the token BEFORE them (`in iter:`, `-> (r:`, `T )`, `x : Type`) follow that token when code
+        # was inserted after it; everything else (contracts before `{`, proof blocks before a statement) stays in front of
+        # the token that followed it
+        prefer_prev = st == "iter:" or re.match(r"^\(\s*\w+\s*:$", st) is not None or st.startswith(":") or st.startswith(")")
+        if prefer_prev and idx - 1 in fwd:
+            j = fwd[idx - 1] + 1
+        elif idx in fwd:
             j = fwd[idx]
         elif idx - 1 in fwd:
             j = fwd[idx - 1] + 1
@@ -358,7 +375,7 @@ def build_unit(repo, overlay_path, out_path):
         report["items"].append(origin)
         if b["opts"].get("fragment"):
             # synthetic signature around the extracted statements; the overlay text opens the body with its contract
-            body = "    " + b["opts"]["wrap_fn"] + "\n" + body + "\n    }"
+            body = "    " + b["opts"]["wrap_fn"] + "\n" + body + "\n    " + b["opts"].get("wrap_tail", "") + "\n    }"
         if wrap:
             hdr = owner if b["opts"].get("impl_header") is None else b["opts"]["impl_header"]
             emit(hdr + " {", {"kind": "wrap"})
